@@ -10,7 +10,7 @@ import (
 
 // C10: positional arguments bind in declaration order.
 
-var c10Decl = &GenCfg{Depth: 2, Fanout: 2, MaxOpts: 3, MaxGroups: 1, NestGroups: 1, Kinds: []Kind{KBool, KString, KInt, KStringSlice, KBoolSlice, KFloat64, KUpper},
+var c10Decl = &GenCfg{Depth: 2, Fanout: 2, MaxOpts: 3, MaxGroups: 1, NestGroups: 1, Kinds: []Kind{KBool, KString, KInt, KStringSlice, KBoolSlice, KFloat64, KUpper, KTri},
 	Pos: true, PosPct: 90, PosSplit: true, Req: 0, OptArg: true, Aliases: true, SubOpt: 75, NonASCII: true,
 	ParserOpts: []flags.Options{flags.PassDoubleDash, flags.PassDoubleDash, flags.IgnoreUnknown}}
 
